@@ -12,6 +12,7 @@ and is reported separately (outside_spec)."""
 import concurrent.futures as cf
 import hashlib
 import json
+import math
 import os
 import random
 import re
@@ -40,8 +41,18 @@ def hfmt(fmt):
 
 # ----------------------------------------------------------------------------- rendering tokens -> bytes / argv
 
-def tok_text(t, base="BASE", long_n=LONG_N):
+def tok_text(t, base="BASE", long_n=LONG_N, prev=None):
     v = t[2]
+    if v in ("<NEARPREV>", "<SAMEPREV>"):
+        try:
+            x = float(prev)
+        except (TypeError, ValueError):
+            return "0"
+        if v == "<SAMEPREV>":
+            return prev
+        for _ in range(3):
+            x = math.nextafter(x, math.inf)
+        return "%.17g" % x
     if v == "<LONGD>":
         return "9" * long_n
     if v == "<LONGA>":
@@ -60,14 +71,17 @@ def render_text(doc, crlf=False):
             out.append(" ".join(cur) + ("\r\n" if crlf else "\n"))
             cur = []
         else:
-            cur.append(tok_text(t))
+            cur.append(tok_text(t, prev=cur[-1] if cur else None))
     if cur:
         out.append(" ".join(cur))
     return "".join(out).encode("latin-1")
 
 
 def render_argv(doc, base, long_n=LONG_N):
-    return [tok_text(t, base, long_n) for t in doc]
+    out = []
+    for t in doc:
+        out.append(tok_text(t, base, long_n, prev=out[-1] if out else None))
+    return out
 
 
 class Case:
